@@ -580,6 +580,13 @@ class Engine:
         self.accesses.append(acc)
 
     def _libcall(self, fn, P, ins, name, state, bind):
+        # struct assignment through pointers (`wblk->next = iblk->pos` is a memcpy): accesses to the heap objects
+        if name and (name.startswith(('llvm.memcpy', 'llvm.memmove', 'llvm.memset')) or name in ('memcpy', 'memmove', 'memset')):
+            for i, k in enumerate(('w',) if 'memset' in name else ('w', 'r')):
+                if i < len(ins.ops):
+                    e0 = P.expr(ins.ops[i])
+                    if e0[0] == 'addr' and e0[1][0] == 'V' and any(s_[0] == 'f' for s_ in e0[2]):
+                        self._access(fn, P, ins, ins.ops[i], k, state, bind)
         # object addresses of globals handed to library functions
         eff = LIB_EFFECTS.get(name, 'unknown')
         for i, v in enumerate(ins.ops):
